@@ -12,8 +12,13 @@ static int get_bom_skip(const std::vector<char>& buff)
 {
     if (buff.empty())
         return 0;
-    // We are comparing against unsigned
-    auto ubuff = reinterpret_cast<const unsigned char*>(buff.data());
+    // We are comparing against unsigned. Only bytes the file has are looked at: a file shorter than the
+    // longest mark is compared as if it went on with a byte no mark contains.
+    unsigned char ubuff[4] = { 0x01, 0x01, 0x01, 0x01 };
+    for (size_t i = 0; i < 4 && i < buff.size(); i++)
+    {
+        ubuff[i] = static_cast<unsigned char>(buff[i]);
+    }
     if (ubuff[0] == 0xEF && ubuff[1] == 0xBB && ubuff[2] == 0xBF)
     {
         //UTF-8
